@@ -5,7 +5,23 @@ import importlib
 import os
 import re
 
-from extract_lib import REPO, generator, lean_bool, lean_list, lean_str, write
+from extract_lib import REPO, generator, lean_bool, lean_list, write
+
+
+def lean_str(s: str) -> str:
+    """Lean string literal; non-ASCII printable text is written as is (the source file is UTF-8)"""
+    out = []
+    for ch in s:
+        o = ord(ch)
+        if ch == '"':
+            out.append('\\"')
+        elif ch == "\\":
+            out.append("\\\\")
+        elif o < 32 or o == 127:
+            out.append("\\x%02x" % o)
+        else:
+            out.append(ch)
+    return '"' + "".join(out) + '"'
 
 
 def _digit_runs():
